@@ -198,7 +198,7 @@ func runC12(c *Ctx) {
 		return
 	}
 	var texts []string
-	for _, rc := range p.renderedCalls(pe) {
+	for _, rc := range p.renderedCallsDeep(pe) {
 		if strings.HasPrefix(rc.Text, "fmt.Fprint") {
 			texts = append(texts, rc.Text)
 		}
@@ -212,8 +212,10 @@ func runC12(c *Ctx) {
 			`fmt.Fprintf(Stderr, "  %*s\n", [(` + v + `.Col + 1), "^"][:])`,
 			`fmt.Fprintf(Stderr, "` + word + ` error on line %d: %s\n", [` + v + `.Line, ` + v + `.Message][:])`,
 		}
+		// the kind word may be part of the format or its first argument
+		alt := `fmt.Fprintf(Stderr, "%s error on line %d: %s\n", ["` + word + `", ` + v + `.Line, ` + v + `.Message][:])`
 		for i, w := range want {
-			c.check(got[w], "R4", fmt.Sprintf("render %s line %d", kind, i+1), p.Pos(pe.Pos()), w, "printError does not perform "+w)
+			c.check(got[w] || (i == 2 && got[alt]), "R4", fmt.Sprintf("render %s line %d", kind, i+1), p.Pos(pe.Pos()), w, "printError does not perform "+w)
 		}
 	}
 }
